@@ -138,6 +138,29 @@ func (f *Frame) havocLocations(st *State, sc *Scope, locs []*Expr) {
 				_, in2 := arrSorts(va.Sort)
 				st.mem[vn[i]] = c.Def(vn[i], Store(va, l.addr, c.Fresh("hv."+vn[i], in2)))
 			}
+		case "elems":
+			if isAggregate(l.ty) {
+				quantLocs = append(quantLocs, l)
+				continue
+			}
+			c.usesQuant = true
+			for _, lf := range c.cellLeaves(l.ty) {
+				en := "E" + (c.memName(l.ty) + lf.suffix)[1:]
+				e := c.elemGet(st, en, lf.sort)
+				inner := SArr(c.idxSort, lf.sort)
+				na := c.Fresh("hv."+en, inner)
+				i := raw("i", c.idxSort)
+				inWin := And(c.idxLe(l.sl.Off, i), c.idxLt(i, c.idxAdd(l.sl.Off, l.sl.Len)))
+				c.assumes = append(c.assumes, Assume{declPos: len(c.decls), why: "frame of havocked slice elements",
+					t: raw(fmt.Sprintf("(forall ((i %s)) (! (=> (not %s) (= (select %s i) (select (select %s %s) i))) :pattern ((select %s i))))",
+						c.idxSort, inWin.S, na.S, e.S, l.sl.Base.S, na.S), SBool)})
+				if lf.sort == SRef {
+					c.assumes = append(c.assumes, Assume{declPos: len(c.decls), why: "havocked references are allocated",
+						t: raw(fmt.Sprintf("(forall ((i %s)) (! (and (< (rroot (select %s i)) %d) (>= (rroot (select %s i)) 0)) :pattern ((select %s i))))",
+							c.idxSort, na.S, birthBase+c.nextObj+1, na.S, na.S), SBool)})
+				}
+				c.memSet(st, en, Store(e, l.sl.Base, na))
+			}
 		default:
 			quantLocs = append(quantLocs, l)
 		}
@@ -154,6 +177,22 @@ func (f *Frame) havocLocations(st *State, sc *Scope, locs []*Expr) {
 		old := c.memGetRaw(st, name)
 		nw := c.Fresh("hv."+name, as)
 		var conds []Term
+		if strings.HasPrefix(name, "E_") {
+			// whole arrays located inside a havocked aggregate
+			for _, l := range quantLocs {
+				switch l.kind {
+				case "under":
+					conds = append(conds, underTerm("r", l.addr))
+				case "elems":
+					conds = append(conds, c.elemsTerm("r", l.sl, true))
+				}
+			}
+			c.assumes = append(c.assumes, Assume{declPos: len(c.decls), why: "frame of havocked aggregate locations",
+				t: raw(fmt.Sprintf("(forall ((r Ref)) (! (=> (not %s) (= (select %s r) (select %s r))) :pattern ((select %s r))))",
+					Or(conds...).S, nw.S, old.S, nw.S), SBool)})
+			st.mem[name] = nw
+			continue
+		}
 		for _, l := range quantLocs {
 			switch l.kind {
 			case "under":
@@ -193,6 +232,7 @@ func isAggregate(t types.Type) bool {
 // memoriesFor lists the memories that may hold cells of the given aggregate locations.
 func (c *Ctx) memoriesFor(locs []Loc) []string {
 	set := map[string]string{}
+	inArr := false
 	var walk func(t types.Type, seen map[string]bool)
 	walk = func(t types.Type, seen map[string]bool) {
 		switch u := t.Underlying().(type) {
@@ -206,10 +246,15 @@ func (c *Ctx) memoriesFor(locs []Loc) []string {
 				walk(u.Field(i).Type(), seen)
 			}
 		case *types.Array:
+			inArr = true
 			walk(u.Elem(), seen)
+			inArr = false
 		default:
 			for _, l := range c.cellLeaves(t) {
 				set[c.memName(t)+l.suffix] = l.sort
+				if inArr {
+					set["E"+(c.memName(t) + l.suffix)[1:]] = SArr(c.idxSort, l.sort)
+				}
 			}
 		}
 	}
@@ -338,6 +383,7 @@ func (f *Frame) addMemsOfType(t types.Type, mems map[string]string) {
 	default:
 		for _, l := range f.c.cellLeaves(t) {
 			mems[f.c.memName(t)+l.suffix] = l.sort
+			mems["E"+(f.c.memName(t) + l.suffix)[1:]] = SArr(f.c.idxSort, l.sort)
 		}
 	}
 }
@@ -673,6 +719,33 @@ func (f *Frame) frameObligations(rst *State, post *Scope, ct *Contract, pos inte
 			c.Oblige("frame", n, rst.reach, Or(append(allowed, Eq(Select(final, r), Select(init, r)))...), p, "map contents outside modifies are unchanged")
 			continue
 		}
+		if strings.HasPrefix(n, "E_") {
+			r := c.Fresh("frame.arr", SRef)
+			ix := c.Fresh("frame.idx", c.idxSort)
+			var allowed []Term
+			for _, l := range locs {
+				switch l.kind {
+				case "cell":
+					if isAggregate(l.ty) {
+						allowed = append(allowed, underTerm(r.S, l.addr))
+					} else if arr, idx, ok := c.splitElem(l.addr); ok && c.memHoldsE(n, l.ty) {
+						allowed = append(allowed, And(Eq(r, arr), Eq(ix, idx)))
+					}
+				case "under":
+					allowed = append(allowed, underTerm(r.S, l.addr))
+				case "elems":
+					if isAggregate(l.ty) {
+						allowed = append(allowed, c.elemsTerm(r.S, l.sl, true))
+					} else if c.memHoldsE(n, l.ty) {
+						allowed = append(allowed, And(Eq(r, l.sl.Base), c.idxLe(l.sl.Off, ix), c.idxLt(ix, c.idxAdd(l.sl.Off, l.sl.Len))))
+					}
+				}
+			}
+			allowed = append(allowed, ILe(IntLitI(birthBase), RefRoot(r)))
+			c.Oblige("frame", n, rst.reach, Or(append(allowed, Eq(Select(Select(final, r), ix), Select(Select(init, r), ix)))...), p,
+				"elements of "+n+" outside the modifies clause are unchanged")
+			continue
+		}
 		r := c.Fresh("frame.r", SRef)
 		var allowed []Term
 		for _, l := range locs {
@@ -686,7 +759,9 @@ func (f *Frame) frameObligations(rst *State, post *Scope, ct *Contract, pos inte
 			case "under":
 				allowed = append(allowed, underTerm(r.S, l.addr))
 			case "elems":
-				allowed = append(allowed, c.elemsTerm(r.S, l.sl, false))
+				if isAggregate(l.ty) {
+					allowed = append(allowed, c.elemsTerm(r.S, l.sl, false))
+				}
 			}
 		}
 		allowed = append(allowed, ILe(IntLitI(birthBase), RefRoot(r)))
@@ -694,6 +769,18 @@ func (f *Frame) frameObligations(rst *State, post *Scope, ct *Contract, pos inte
 		c.Oblige("frame", n, rst.reach, Or(append(allowed, Eq(Select(final, r), Select(init, r)))...), p,
 			"cells of "+n+" outside the modifies clause are unchanged")
 	}
+}
+
+func (c *Ctx) memHoldsE(mem string, t types.Type) bool {
+	if isAggregate(t) {
+		return true
+	}
+	for _, l := range c.cellLeaves(t) {
+		if "E"+(c.memName(t) + l.suffix)[1:] == mem {
+			return true
+		}
+	}
+	return false
 }
 
 func (c *Ctx) memHolds(mem string, t types.Type) bool {
